@@ -13,7 +13,9 @@ import time
 
 ROOT = os.path.dirname(os.path.dirname(os.path.dirname(os.path.abspath(__file__))))
 PY = sys.executable
-EVID = os.path.join(ROOT, 'evidence')
+# VF_EVIDENCE_DIR: where evidence and replay files go (the seeded-change sweep runs the checks against changed
+# copies of the repository and must not overwrite the evidence of the real tree)
+EVID = os.environ.get('VF_EVIDENCE_DIR') or os.path.join(ROOT, 'evidence')
 REPLAYS = os.path.join(EVID, 'replays')
 KNOWN = os.path.join(ROOT, 'known_findings.json')
 
